@@ -86,7 +86,11 @@ def cloud(case):
         _, first = np.unique(p, axis=0, return_index=True)
         p = p[np.sort(first)]
         if soma is not None:
-            soma = np.round(soma * 2).astype(case["dtype"]) + np.array([0, 0, 1], case["dtype"])
+            if case["seed"] % 2:  # an integer soma ...
+                soma = np.round(soma * 2).astype(case["dtype"]) + np.array([0, 0, 1],
+                                                                           case["dtype"])
+            else:                 # ... or one between the voxels (sub-voxel soma centre)
+                soma = np.round(soma * 2) + np.array([0.25, -0.5, 0.375])
     if case.get("dups"):
         # coincident samples (and a soma that is also in the cloud): still one node per point
         rng2 = np.random.default_rng(case["seed"] + 9)
